@@ -532,3 +532,130 @@ Proof.
   { rewrite !(Qmult_comm eps). apply Qmult_le_compat_r; [exact Hb|pose proof eps_pos; lra]. }
   lra.
 Qed.
+
+(* ------------------------------------------------------------------------------------------ *)
+(* raster path: every returned sample is the sum of the input samples of the same raster cell *)
+
+Lemma nth_nil_Q k : nth k (@nil Q) 0 = 0.
+Proof. destruct k; reflexivity. Qed.
+
+Lemma nth_vadd k : forall a b, nth k (vadd a b) 0 == nth k a 0 + nth k b 0.
+Proof.
+  induction k as [|k IH]; intros a b.
+  - destruct a as [|x a]; destruct b as [|y b]; cbn [vadd nth]; ring.
+  - destruct a as [|x a]; destruct b as [|y b]; cbn [vadd nth]; rewrite ?nth_nil_Q; try ring.
+    apply IH.
+Qed.
+
+Lemma nth_fold_vadd ws : forall acc k,
+  nth k (fold_left vadd ws acc) 0 == nth k acc 0 + sumQ (map (fun w => nth k w 0) ws).
+Proof.
+  induction ws as [|w ws IH]; intros acc k; cbn [fold_left map sumQ fold_right]; [ring|].
+  fold (sumQ (map (fun w => nth k w 0) ws)). rewrite IH, nth_vadd. ring.
+Qed.
+
+Lemma add_gradients_raster_inv s mg ms grads g :
+  add_gradients s mg ms grads = OK (P_raster, g) ->
+  exists mg' ms', make_arb s mg' ms' (raster_sum s grads) (minl (map g_delay grads))
+    (sumQ (map g_first (filter (fun g => Qeq_bool (g_delay g) (minl (map g_delay grads))) grads)))
+    (sumQ (map g_last (filter (fun g => Qeq_bool (g_dur g) (maxl (map g_dur grads))) grads))) = OK g.
+Proof.
+  unfold add_gradients. destruct grads as [|g0 [|g1 rest]]; cbv beta iota zeta; try discriminate.
+  destruct (same_timing (g0 :: g1 :: rest)).
+  - destruct g0; [|discriminate]. destruct (make_trap_amp _ _ _ _ _ _ _); discriminate.
+  - destruct (forallb _ _).
+    + destruct (make_ext_trap _ _ _ _); discriminate.
+    + destruct (make_arb _ _ _ _ _ _ _) eqn:E; [|discriminate].
+      intro H. injection H as <-. eexists. eexists. exact E.
+Qed.
+
+Lemma make_arb_inv s mg ms w d f l g : make_arb s mg ms w d f l = OK g ->
+  exists tt sd, g = GExt (mkEG d tt w f l sd).
+Proof.
+  unfold make_arb. destruct (diffs w); [discriminate|].
+  destruct (Qgtb _ _); [discriminate|]. destruct (Qgtb _ _); [discriminate|].
+  intro H. injection H as <-. eexists. eexists. reflexivity.
+Qed.
+
+Theorem add_raster_path_sum_at_centres_partial s mg ms grads g :
+  add_gradients s mg ms grads = OK (P_raster, g) ->
+  let cd := minl (map g_delay grads) in
+  exists e, g = GExt e /\ eg_delay e = cd /\
+    (forall k, nth k (eg_wf e) 0 == sumQ (map (fun gi => nth k (raster_samples s cd gi) 0) grads)) /\
+    eg_first e = sumQ (map g_first (filter (fun g => Qeq_bool (g_delay g) cd) grads)) /\
+    eg_last e = sumQ (map g_last (filter (fun g => Qeq_bool (g_dur g) (maxl (map g_dur grads))) grads)).
+Proof.
+  intros H cd. destruct (add_gradients_raster_inv _ _ _ _ _ H) as (mg' & ms' & Hm).
+  destruct (make_arb_inv _ _ _ _ _ _ _ _ Hm) as (tt & sd & ->).
+  eexists. split; [reflexivity|]. cbn [eg_delay eg_wf eg_first eg_last].
+  split; [reflexivity|]. split; [|split; reflexivity].
+  intro k. unfold raster_sum. rewrite nth_fold_vadd. fold cd.
+  rewrite map_map. destruct k; cbn [nth]; ring.
+Qed.
+
+(* ------------------------------------------------------------------------------------------ *)
+(* limit tests of the makers: they fail exactly beyond max_grad + eps / max_slew * (1 + eps) *)
+
+Lemma Qgtb_true a b : Qgtb a b = true <-> b < a.
+Proof. unfold Qgtb. apply Qltb_lt. Qed.
+Lemma Qgtb_false a b : Qgtb a b = false <-> a <= b.
+Proof. unfold Qgtb. apply Qltb_ge. Qed.
+
+Theorem make_trap_amp_raises_iff mg ms amp rise flat fall delay :
+  ~ rise == 0 -> ~ fall == 0 ->
+  ((exists e, make_trap_amp mg ms amp rise flat fall delay = Err e) <->
+   (mg + eps < Qabs amp \/ ms * (1 + eps) < Qabs amp / rise \/ ms * (1 + eps) < Qabs amp / fall)).
+Proof.
+  intros Hr Hf. unfold make_trap_amp.
+  case_eqb rise 0 E1; [contradiction|]. case_eqb fall 0 E2; [contradiction|].
+  destruct (Qgtb (Qabs amp) (mg + eps)) eqn:A1.
+  { apply Qgtb_true in A1. split; [intros _; left; exact A1|intros _; eexists; reflexivity]. }
+  apply Qgtb_false in A1.
+  destruct (Qgtb (Qabs amp / rise) (ms * (1 + eps))) eqn:A2.
+  { apply Qgtb_true in A2. split; [intros _; right; left; exact A2|intros _; eexists; reflexivity]. }
+  apply Qgtb_false in A2.
+  destruct (Qgtb (Qabs amp / fall) (ms * (1 + eps))) eqn:A3.
+  { apply Qgtb_true in A3. split; [intros _; right; right; exact A3|intros _; eexists; reflexivity]. }
+  apply Qgtb_false in A3.
+  split; [intros (e & He); discriminate|intros [H|[H|H]]; lra].
+Qed.
+
+Theorem make_arb_raises_iff s mg ms w d f l : diffs w <> [] ->
+  ((exists e, make_arb s mg ms w d f l = Err e) <->
+   (ms * (1 + eps) < max_absl (map (fun x => x / s_raster s) (diffs w)) \/ mg + eps < max_absl w)).
+Proof.
+  intro Hd. unfold make_arb. destruct (diffs w) as [|d0 dw] eqn:Ed; [congruence|].
+  destruct (Qgtb (max_absl (map (fun x => x / s_raster s) (d0 :: dw))) (ms * (1 + eps))) eqn:A1.
+  { apply Qgtb_true in A1. split; [intros _; left; exact A1|intros _; eexists; reflexivity]. }
+  apply Qgtb_false in A1.
+  destruct (Qgtb (max_absl w) (mg + eps)) eqn:A2.
+  { apply Qgtb_true in A2. split; [intros _; right; exact A2|intros _; eexists; reflexivity]. }
+  apply Qgtb_false in A2.
+  split; [intros (e & He); discriminate|intros [H|H]; lra].
+Qed.
+
+(* the raster path raises exactly when the returned samples exceed the effective limits *)
+Theorem add_raster_raises_iff s mga msa grads :
+  (2 <= length grads)%nat -> same_timing grads = false ->
+  forallb (fun g => is_trap g || negb (is_arb s g)) grads = false ->
+  diffs (raster_sum s grads) <> [] ->
+  let mg := if Qle_bool mga 0 then s_max_grad s else mga in
+  let ms := if Qle_bool msa 0 then s_max_slew s else msa in
+  let mg3 := if ag_arb_passes_limits then mg else s_max_grad s in
+  let ms3 := if ag_arb_passes_limits then ms else s_max_slew s in
+  ((exists e, add_gradients s mga msa grads = Err e) <->
+   (ms3 * (1 + eps) < max_absl (map (fun x => x / s_raster s) (diffs (raster_sum s grads))) \/
+    mg3 + eps < max_absl (raster_sum s grads))).
+Proof.
+  intros Hlen Hst Hfa Hd. cbv zeta.
+  unfold add_gradients. destruct grads as [|g0 [|g1 rest]]; [cbn in Hlen; lia|cbn in Hlen; lia|].
+  cbv beta iota zeta. rewrite Hst, Hfa.
+  set (mg3 := if ag_arb_passes_limits then _ else _).
+  set (ms3 := if ag_arb_passes_limits then _ else _).
+  rewrite <- (make_arb_raises_iff s mg3 ms3 _ (minl (map g_delay (g0 :: g1 :: rest)))
+    (sumQ (map g_first (filter (fun g => Qeq_bool (g_delay g) (minl (map g_delay (g0 :: g1 :: rest)))) (g0 :: g1 :: rest))))
+    (sumQ (map g_last (filter (fun g => Qeq_bool (g_dur g) (maxl (map g_dur (g0 :: g1 :: rest)))) (g0 :: g1 :: rest)))) Hd).
+  destruct (make_arb _ _ _ _ _ _ _) eqn:E.
+  - split; intros (e & He); discriminate.
+  - split; intros _; eexists; reflexivity.
+Qed.
